@@ -1701,3 +1701,7 @@ mod tests {
         );
     }
 }
+
+#[cfg(pendulum_project_ntpd_rs_verif)]
+#[path = "/verif/hooks/ntp_proto/server_probe.rs"]
+mod verif_probe;
